@@ -62,6 +62,14 @@ def run(ctx, col, tier):
     repo = ctx.repo
     from ..rules import stateless as _stateless_memo
     _stateless_memo.run_memo(ctx, col)
+    from ..rules import rowslice as _rowslice
+    _rowslice.run(ctx, col, ('swcgeom.core.tree', 'swcgeom.core.tree_utils', 'swcgeom.core.tree_utils_impl', 'swcgeom.core.swc_utils.base', 'swcgeom.core.swc_utils.subtree', 'swcgeom.core.swc_utils.normalizer', 'swcgeom.transforms.tree'))
+    # a traversal started from a handle relies on the handle's position being normalised (0..n-1): the integer arm of Tree.__getitem__
+    from .c09 import idxnorm as _idxnorm
+    col.rule("R-IDXNORM", "node handles obtained by index carry a normalised position: the integer arm of Tree.__getitem__ has the table key<-n -> IndexError, "
+             "-n<=key<0 -> key+n, 0<=key<n -> key, key>=n -> IndexError (a handle with a negative position starts a traversal at a key that is not in the "
+             "children index, or at the 'no parent' key -1)", floor=8, exhaustive=True)
+    col.guard(_idxnorm, ctx, col, ("swcgeom.core.tree.Tree.__getitem__",))
     from ..rules import rootpos as _rootpos
     _rootpos.run(ctx, col, ('swcgeom.core.tree', 'swcgeom.core.swc_utils.base'))
     col.rule("R-CG", "no strong call-graph cycle is reachable from the traversal entry points "
